@@ -15,7 +15,7 @@ from props.graphfacts import conclude, replay  # noqa: F401
 
 THEOREMS = ["Rva.include_fault_one_error", "Rva.include_enters_file", "Rva.import_twice_refused", "Rva.toParseErr_located",
             "Rva.parseInst_lg", "Rva.parseDirective_lg", "Rva.parseStep_local",
-            "Rva.recover_append", "Rva.include_end_pops", "Rva.include_step_commutes", "Rva.include_step_commutes'",
+            "Rva.recover_append", "Rva.include_end_pops", "Rva.include_step_commutes", "Rva.include_step_commutes_next",
             "Rva.nextTop_shorter", "Rva.include_is_paste", "Rva.sepAll_label_line"]
 
 
